@@ -27,7 +27,7 @@ for pid in ALL:
 na = [dict(property_id=p, reason=props.NOT_APPLICABLE.get(p, "check not built yet in this session; will be claimed once its monitor runs silent on the unchanged tree")) for p in ALL if p not in props.PROPS]
 m = dict(
     version=1,
-    setup_cmd="python3 /verif/lib/build.py harness relassert cli pyext",
+    setup_cmd="python3 /verif/lib/build.py harness relassert cli pyext miri",
     hooks=dict(
         guard="bigtools_verif",
         enable="RUSTFLAGS='--cfg bigtools_verif' (harness crate /verif/harness path-depends on /repo/bigtools; CLI and pybigtools built from /repo with the same flag into /verif/target)",
